@@ -42,6 +42,13 @@ pub enum Job {
     /// "building a font" through the IFT client: one select-and-apply round over a generated world in
     /// which two glyph-keyed patches of one group supply different data for a shared glyph
     IftApply { seed: u64 },
+    /// GSUB with many lookups of identical shape and size that together exceed 64 KiB: extension promotion
+    /// has to choose among candidates of equal density
+    ManyLookups { lookups: u16, glyphs: u16, odd_one: bool },
+    /// klippa subset of a font that sits in a buffer which held a slightly different version of the same
+    /// font (one cmap bit flipped) during an earlier subsetting run: the result must be that of the bytes
+    /// now in the buffer, whatever the same memory held before
+    SubsetReusedBuffer { font: String, gids: Vec<u32>, unicodes: Vec<u32>, flags: u16, flip: u32 },
 }
 
 impl Job {
@@ -377,6 +384,38 @@ fn run_job_inner(job: &Job) -> Result<Vec<u8>, String> {
             let f = corpus::by_name(font).ok_or("nofont")?;
             subset_font(f.data, gids, unicodes, *flags)
         }
+        Job::SubsetReusedBuffer { font, gids, unicodes, flags, flip } => {
+            let f = corpus::by_name(font).ok_or("nofont")?;
+            let mut buf = f.data.to_vec();
+            let (at, len) = {
+                let fr = FontRef::new(&buf).map_err(|_| "open".to_string())?;
+                let rec = fr.table_directory.table_records().iter().find(|r| r.tag() == Tag::new(b"cmap")).ok_or("nocmap")?;
+                (rec.offset() as usize, rec.length() as usize)
+            };
+            if len > 12 {
+                // earlier run: the same buffer holds a version of the font with one cmap bit flipped
+                let bit = 96 + (*flip as usize) % ((len - 12) * 8);
+                buf[at + bit / 8] ^= 1 << (bit % 8);
+                let _ = std::panic::catch_unwind(std::panic::AssertUnwindSafe(|| subset_font(&buf, gids, unicodes, *flags)));
+                crate::core::panics::reset();
+                buf[at + bit / 8] ^= 1 << (bit % 8);
+            }
+            subset_font(&buf, gids, unicodes, *flags)
+        }
+        Job::ManyLookups { lookups, glyphs, odd_one } => {
+            use tables::{gsub, layout};
+            let list: Vec<gsub::SubstitutionLookup> = (0..*lookups)
+                .map(|i| {
+                    let n = if *odd_one && i == lookups / 2 { glyphs / 2 + 1 } else { *glyphs };
+                    let coverage = (0..n).map(|g| GlyphId16::new(10 + g * 2)).collect();
+                    let first_alt = 9_000 + (i as u32 * 131 % 20_000) as u16;
+                    let alternates = (0..n).rev().map(|g| GlyphId16::new(first_alt + g)).collect();
+                    gsub::SubstitutionLookup::Single(layout::Lookup::new(layout::LookupFlag::empty(), vec![gsub::SingleSubst::format_2(coverage, alternates)]))
+                })
+                .collect();
+            let table = gsub::Gsub::new(Default::default(), Default::default(), layout::LookupList::new(list));
+            dump_table(&table).map_err(|e| err_kind(&e))
+        }
         Job::SinglePos { groups, group_size, extra_formats, seed } => {
             use tables::gpos::builders::{SinglePosBuilder, ValueRecordBuilder};
             use tables::layout::builders::{Builder, LookupBuilder};
@@ -507,7 +546,7 @@ pub fn pool() -> &'static Pool {
 
 pub fn gen_job(rng: &mut Rng, heavy_ok: bool) -> Job {
     let p = pool();
-    let w = if heavy_ok { [40u32, 6, 3, 6, 6, 8, 8, 6, 8, 9, 6, 6] } else { [60, 0, 0, 4, 4, 8, 8, 6, 6, 4, 5, 5] };
+    let w = if heavy_ok { [40u32, 6, 3, 6, 6, 8, 8, 6, 8, 9, 6, 6, 3, 7] } else { [60, 0, 0, 4, 4, 8, 8, 6, 6, 4, 5, 5, 0, 5] };
     match rng.weighted(&w) {
         0 => {
             let (f, t) = rng.pick(&p.roundtrips).clone();
@@ -543,6 +582,15 @@ pub fn gen_job(rng: &mut Rng, heavy_ok: bool) -> Job {
         }
         10 => Job::SinglePos { groups: 2 + rng.below(6) as u16, group_size: 2 + rng.below(8) as u16, extra_formats: rng.below(5) as u16, seed: rng.below(6) },
         11 => Job::IftApply { seed: rng.below(400) },
+        12 => Job::ManyLookups { lookups: *rng.pick(&[12u16, 30, 40, 56]), glyphs: *rng.pick(&[400u16, 900, 1200]), odd_one: rng.chance(1, 3) },
+        13 => {
+            let (f, n, cps) = rng.pick(&p.subsettable).clone();
+            let gids: Vec<u32> = (0..rng.below(4)).map(|_| rng.below(n as u64) as u32).collect();
+            let mut us: Vec<u32> = if cps.is_empty() { vec![] } else { (0..2 + rng.below(10)).map(|_| *rng.pick(&cps)).collect() };
+            us.sort();
+            us.dedup();
+            Job::SubsetReusedBuffer { font: f, gids, unicodes: us, flags: *rng.pick(&[0u16, 2, 0x40]), flip: rng.below(1 << 16) as u32 }
+        }
         _ => {
             let (f, n, cps) = rng.pick(&p.subsettable).clone();
             let mut gids = Vec::new();
@@ -592,7 +640,11 @@ fn reference(job: &Job) -> JobOut {
     if let Some(v) = m.lock().unwrap().get(&k) {
         return v.clone();
     }
-    let j = job.clone();
+    // the reference of a reused-buffer subset is the subset of the pristine bytes with no earlier run at all
+    let j = match job {
+        Job::SubsetReusedBuffer { font, gids, unicodes, flags, .. } => Job::Subset { font: font.clone(), gids: gids.clone(), unicodes: unicodes.clone(), flags: *flags },
+        other => other.clone(),
+    };
     let out = hashseed::run_on_fresh_thread(0, 16 << 20, move || {
         write_fonts::verif_set_object_counter(0);
         run_job(&j)
